@@ -164,6 +164,11 @@ def binop(f: Callable[[Expr, Expr], Expr], a: Val, b: Val) -> Val:
 def unop(f: Callable[[Expr], Expr], a: Val) -> Val:
     if isinstance(a, Alt):
         return Alt([unop(f, x) for x in a.vals])
+    from .values import VStack as _VS
+    if isinstance(a, _VS):
+        parts = [unop(f, p) for p in a.ordered]
+        if all(isinstance(p, Arr) for p in parts):
+            return _VS(parts)
     a2 = to_arr(a) if not isinstance(a, (Sc, Arr)) else a
     if isinstance(a2, (Blocks, DiagMat)):
         a2 = densify(a2)
@@ -256,6 +261,11 @@ def reduce_axis_expr(e: Expr, sp: Space, iv: str, op: str) -> Expr:
 
 
 def reduce_axis(v: Val, axis: int, op: str) -> Val:
+    from .values import VStack as _VS
+    if isinstance(v, _VS) and v.ordered and axis not in (0, -v.ordered[0].ndim):
+        parts = [reduce_axis(p, axis, op) for p in v.ordered]
+        if all(isinstance(p, Arr) for p in parts):
+            return _VS(parts)
     v2 = to_arr(v) if not isinstance(v, Arr) else v
     if isinstance(v2, (Blocks, DiagMat)):
         v2 = densify(v2)
@@ -275,6 +285,17 @@ def reduce_axis(v: Val, axis: int, op: str) -> Val:
 
 class IndexSpec:
     pass
+
+
+def _table_read(value: Expr, pos: Expr, table) -> Expr:
+    if pos[0] in ("iv", "num"):
+        return value
+    if getattr(table, "uid", None) is None:
+        try:
+            table.uid = fresh("T")
+        except Exception:
+            pass
+    return sym.At(getattr(table, "uid", None) or "table", value, (pos,))
 
 
 def _negated_size(e) -> bool:
@@ -377,7 +398,9 @@ def index(v: Val, idx: list, interp=None) -> Val:
                 return index(v, [("int", int(x[1])) if j == items.index(it) else jt for j, jt in enumerate(items)], interp)
             elif sym.subst_ivar_expr(e, iv, x) is not None and not any(y[0] in ("in", "at") for y in sym.walk(e)):
                 # a position-valued table (a grid, an arange): the entry at a computed position is the table's formula there
-                e = sym.subst_ivar_expr(e, iv, x)
+                # (kept together with the position, so that a later look-up of this value in a value->position table can
+                # be inverted)
+                e = _table_read(sym.subst_ivar_expr(e, iv, x), x, v)
             else:
                 # data-dependent scalar index: the row selected is named after the index expression, so two
                 # reads at the same index refer to the same row
@@ -449,7 +472,7 @@ def index(v: Val, idx: list, interp=None) -> Val:
                 e2 = sym.subst_ivar_expr(e, iv, fa.elem)
                 if e2 is not None:
                     # table[positions]: one entry per position, the table's formula evaluated there
-                    e = e2
+                    e = _table_read(e2, fa.elem, v) if not any(y[0] in ("in", "at") for y in sym.walk(e)) and v.ndim == 1 else e2
                     axes.extend(fa.axes)
                     continue
             return Unknown("fancy-index", (e,))
@@ -466,6 +489,13 @@ def index_vstack(v, idx: list, interp=None) -> Optional[Val]:
     and represented by an opaque element"""
     from .values import VStack
     first, rest = idx[0], idx[1:]
+    if first[0] == "mask" and isinstance(first[1], VStack) and len(first[1].ordered) == len(v.ordered) \
+            and all(m.ndim == 1 for m in first[1].ordered):
+        # a row mask computed part by part selects rows part by part
+        parts = [index(p, [("mask", m)] + rest, interp) for p, m in zip(v.ordered, first[1].ordered)]
+        if all(isinstance(x, Arr) for x in parts):
+            return VStack(parts)
+        return None
     if first[0] == "full":
         parts = [index(p, [("full",)] + rest, interp) for p in v.ordered] if rest else list(v.ordered)
         if all(isinstance(x, Arr) for x in parts):
